@@ -349,6 +349,22 @@ def run_subcheck_shard(sc, n, seed, tier, known_sigs, max_rounds=3):
                                    tier=tier))
         except hypothesis.errors.Unsatisfiable as e:
             raise HarnessError('%s: generator unsatisfiable: %s' % (sc.name, e))
+        except BaseException as e:  # noqa: BLE001
+            # Hypothesis reports FlakyFailure / Flaky (an exception group) when the same case
+            # fails on one execution and passes on the next: the library under test is not a
+            # function of its inputs (hidden state, unseeded RNG). The last failing case is kept.
+            if isinstance(e, (KeyboardInterrupt, SystemExit, MemoryError)):
+                raise
+            if state['fail'] is None or 'Flaky' not in type(e).__name__:
+                raise
+            case_, v = state['fail']
+            sig = v.sig + ':nondeterministic'
+            found_sigs.add(v.sig)
+            found_sigs.add(sig)
+            violations.append(dict(subcheck=sc.name, case=tolist(case_),
+                                   message=v.msg + ' (not reproducible on immediate re-execution: '
+                                   'library behaviour depends on hidden state)', signature=v.sig,
+                                   seed=seed, tier=tier))
     return stats.to_dict(), violations
 
 
